@@ -165,6 +165,9 @@ class Check:
             return None
         if "engine=JOB" in first:
             return self.job_pseudo(path)
+        if "engine=BUILD" in first:
+            spec = json.loads([l for l in open(path).read().splitlines() if l.startswith("{")][0])
+            return dict(name="build", target=None, replay=lambda exe, prop, p: ["bash", "-c", spec["cmd"].replace("{repo}", vbuild.REPO)], replay_timeout=1200)
         for job in self.cfg["jobs"]:
             tag = job.get("engine_tag")
             if tag and ("engine=" + tag) in first:
@@ -332,8 +335,20 @@ class Check:
             rc, out, _ = run(self.replay_cmd(job, self.replay_only) + ["--verbose"], env=job.get("env"))
             print(out)
             return 1 if rc in (1, CRASH_RC) else 0 if rc == 0 else 2
-        nrep = self.replay_tier(fk)
-        self.gen_tier(sorted(fk))
+        try:
+            nrep = self.replay_tier(fk)
+            self.gen_tier(sorted(fk))
+        except vbuild.BuildFailed as e:
+            # The engines use documented forms only and compile against the unchanged tree: a tree on which they do not
+            # compile has broken a documented form, and no history of this property can be run on it at all.
+            nrep = 0
+            first = [l for l in e.output.splitlines() if "error" in l][:1]
+            cmd = e.cmd.split(" && mv ")[0]
+            cmd = " ".join("/dev/null" if (i > 0 and t[i - 1] == "-o") else x for t in [cmd.split(" ")] for i, x in enumerate(t))
+            path = os.path.join(self.rundir, "build_fail.txt")
+            open(path, "w").write("# engine=BUILD prop=%s\n# an engine of this check (documented forms only) does not compile against the tree under test\n# %s\n%s\n" % (
+                self.prop, first[0][:300] if first else "", json.dumps(dict(cmd=cmd.replace(vbuild.REPO + "/include", "{repo}/include")))))
+            self.keep(path, "engine does not compile against this tree: " + (first[0][:300] if first else "see the replay file"))
         doc = self.write_evidence(time.time() - t0, nrep)
         for k, text in self.known:
             log("KNOWN-FINDING: property=%s %s" % (self.prop, text))
